@@ -177,6 +177,9 @@ pub trait El: Clone + 'static {
     fn extend_slices<'b>(_v: &mut bumpalo::collections::Vec<'b, Self>, _xs: &[&[Self]]) {
         unreachable!("extend_from_slices_copy needs a Copy element")
     }
+    fn extend_refs<'b>(_v: &mut bumpalo::collections::Vec<'b, Self>, _xs: &[Self]) {
+        unreachable!("Extend<&T> needs a Copy element")
+    }
 }
 
 /// sized element with a unique id, a value, a logging destructor and a Clone that makes a fresh id
@@ -294,6 +297,9 @@ impl El for CElem {
     }
     fn extend_slices<'b>(v: &mut bumpalo::collections::Vec<'b, Self>, xs: &[&[Self]]) {
         v.extend_from_slices_copy(xs)
+    }
+    fn extend_refs<'b>(v: &mut bumpalo::collections::Vec<'b, Self>, xs: &[Self]) {
+        v.extend(xs.iter())
     }
 }
 
